@@ -572,3 +572,13 @@ M("C09", "subscripts-regex-last-group", PU, _FTI_OLD, '    match = _TAG_INDEX.se
 T("C09", "subscripts-regex-findall", PU, _FTI_OLD, '    match = _TAG_INDEX.search(tag)\n    if match:\n        index = _DIGITS.findall(match.group(0))\n        tag = tag[: match.start()]\n    else:\n        index = []\n    return tag, index\n',
   more=[(PU, "def _find_tag_index(tag):", '_TAG_INDEX = re.compile(r"\\[[\\d,\\s]*\\]$")\n_DIGITS = re.compile(r"\\d+")\n\n\ndef _find_tag_index(tag):'), (PU, "import string\n", "import re\nimport string\n")])
 M("C09", "subscripts-first-two", PU, '        index = inside_value.split(\n            ","\n        )', '        index = inside_value.split(\n            ","\n        )[:2]', ["D9.8"])
+
+# D14.4 witness evaluation of the generic reply value
+_PR_OLD = '        if self.data_type is None:\n            self.value = self.data\n        elif self.is_valid():\n            try:\n                self.value = self.data_type.decode(self.data)\n            except Exception as err:\n                self.__log.exception("Failed to parse reply")\n                self._error = f"Failed to parse reply - {err}"\n                self.value = None\n'
+_PR_TWIN = '        if self.data_type is not None:\n            if not self.is_valid():\n                return\n            try:\n                decoded = self.data_type.decode(self.data)\n            except Exception as err:\n                self.__log.exception("Failed to parse reply")\n                self._error = f"Failed to parse reply - {err}"\n                decoded = None\n            self.value = decoded\n        else:\n            self.value = self.data\n'
+_PR_BAD = '        if self.data_type is None or not self.data:\n            self.value = self.data\n        else:\n            try:\n                self.value = self.data_type.decode(self.data)\n            except Exception as err:\n                self.__log.exception("Failed to parse reply")\n                self._error = f"Failed to parse reply - {err}"\n                self.value = None\n'
+_PR_SWALLOW = '        if self.data_type is None:\n            self.value = self.data\n        elif self.is_valid():\n            try:\n                self.value = self.data_type.decode(self.data)\n            except Exception as err:\n                self.__log.exception("Failed to parse reply")\n                self.value = None\n'
+# the text occurs twice (connected, unconnected): each variant edits both occurrences
+T("C14", "parse-reply-restructured", PC, _PR_OLD, _PR_TWIN, more=[(PC, _PR_OLD, _PR_TWIN)])
+M("C14", "parse-reply-decodes-refused", PC, _PR_OLD, _PR_BAD, ["D14.4"], more=[(PC, _PR_OLD, _PR_BAD)])
+M("C14", "parse-reply-error-swallowed", PC, _PR_OLD, _PR_SWALLOW, ["D14.4"])
